@@ -70,11 +70,22 @@ IFACE_OM = I.DBusInterface('org.freedesktop.DBus.ObjectManager', I.Method('GetMa
                            I.Signal('InterfacesAdded', 'oa{sa{sv}}'), I.Signal('InterfacesRemoved', 'oas'), noRegister=True)
 
 
-class ObjAM(ObjA):
+IFACE_L = I.DBusInterface('org.verif.c16.L', I.Method('Where', returns='s'), noRegister=True)
+
+
+class _Locatable:
+    """A plain helper class (not a DBusObject) that brings an interface of its own; listed BEHIND the DBusObject base."""
+    dbusInterfaces = [IFACE_L]
+
+    def dbus_Where(self):
+        return 'here'
+
+
+class ObjAM(ObjA, _Locatable):
     dbusInterfaces = [IFACE_OM]
 
 
-class ObjABM(ObjAB):
+class ObjABM(ObjAB, _Locatable):
     dbusInterfaces = [IFACE_OM]
 
     def dbus_GetManagedObjects(self):
@@ -197,6 +208,8 @@ def check_state(ctx, w_, hist, case):
             want_ifs = set()
             if path in exported:
                 want_ifs = {'org.verif.c16.A'} | ({'org.verif.c16.B'} if exported[path] == 'AB' else set())
+                if DECLARE_MANAGER[0]:
+                    want_ifs |= {'org.verif.c16.L', 'org.freedesktop.DBus.ObjectManager'}
             if not want_ifs <= ifs or (path not in exported and ifs):
                 ctx.report('introspect-interfaces', 'Introspect on %s shows interfaces %r, expected %r' % (
                     path, sorted(ifs), sorted(want_ifs)), base, case)
@@ -233,6 +246,8 @@ def check_state(ctx, w_, hist, case):
                 want_props = {'org.verif.c16.A': {'Name': world.names.get(p, 'name-of-' + p)}}
                 if exported[p] == 'AB':
                     want_props['org.verif.c16.B'] = {'Count': world.counts.get(p, 5)}
+                if DECLARE_MANAGER[0]:
+                    want_props['org.verif.c16.L'] = {}
                 for iname, props in want_props.items():
                     if ifs.get(iname) != props:
                         ctx.report('managed-content', 'GetManagedObjects entry %s lacks interface/readable properties: '
@@ -320,6 +335,8 @@ def apply_op(ctx, world, op, hist, case):
         return False
     m = good[0]
     ifs_want = {'org.verif.c16.A'} | ({'org.verif.c16.B'} if op[2:] == ('AB',) or (kind != 'export' and op[2] == 'AB') else set())
+    if DECLARE_MANAGER[0]:
+        ifs_want |= {'org.verif.c16.L'}
     if kind == 'export':
         ok = (m.fields.get('signature') == 'sa{sa{sv}}' or m.fields.get('signature') == 'oa{sa{sv}}') and \
             m.body[0] == path and ifs_want <= set(m.body[1])
